@@ -96,7 +96,9 @@ impl Read for Src {
                 return Err(io::Error::new(kind_of(k), "injected"));
             }
         };
-        buf[..n].copy_from_slice(&self.data[self.pos..self.pos + n]);
+        if n > 0 {
+            buf[..n].copy_from_slice(&self.data[self.pos..self.pos + n]);
+        }
         self.pos += n;
         self.log.borrow_mut().push(format!("r{}:{}", offered, n));
         Ok(n)
